@@ -99,10 +99,10 @@ class Facts:
     def body(self, path):
         return self.bodies.get(path)
 
-    def find(self, pattern):
-        """bodies whose path matches the regex (search)."""
+    def find(self, pattern, include_promoted=False):
+        """bodies whose path matches the regex (search); promoted-constant bodies only on request."""
         rx = re.compile(pattern)
-        return [self.bodies.get(p) for p in self.bodies.keys() if rx.search(p)]
+        return [self.bodies.get(p) for p in self.bodies.keys() if rx.search(p) and (include_promoted or "::promoted[" not in p)]
 
     def one(self, pattern):
         m = self.find(pattern)
